@@ -478,6 +478,26 @@ theorem C01_asFound_clamp_unguarded :
     clampConversions true .none (.conv 0 0) (.other 1) = none ∧
     clampConversions false .none (.conv 0 0) (.other 1) = some () := by decide
 
+/-! ### C01: the `unwrap` in `consume_escaped_char` -/
+
+/-- **`char::from_u32(value).unwrap()` in `consume_escaped_char` cannot fail** (base.rs:368-372):
+    whatever the hex digits of the escape say, the value handed over is a Unicode scalar value —
+    in particular at the edges U+D7FF / U+D800 / U+DFFF / U+E000 and U+10FFFE / U+10FFFF. -/
+theorem C01_escaped_char_guarded (v : Nat) : validScalar (escapedScalar v) = true := by
+  unfold escapedScalar validScalar
+  split
+  · decide
+  · rename_i h
+    simp only [Bool.or_eq_true, beq_iff_eq, Bool.and_eq_true, decide_eq_true_eq, not_or, not_and, Nat.not_le] at h ⊢
+    omega
+
+example : escapedScalar 0xDFFF = 0xFFFD ∧ escapedScalar 0xD7FF = 0xD7FF ∧ escapedScalar 0xE000 = 0xE000 ∧
+    escapedScalar 0x10FFFE = 0x10FFFE ∧ escapedScalar 0x10FFFF = 0xFFFD ∧ escapedScalar 0 = 0xFFFD := by decide
+
+/-- The seeded variant with the half-open surrogate range `0xD800..0xDFFF` hands U+DFFF to `unwrap`. -/
+example : validScalar (if (0 : Nat) == 0xDFFF || (0xD800 ≤ 0xDFFF && 0xDFFF < 0xDFFF) || 0xDFFF ≥ 0x10FFFF then 0xFFFD else 0xDFFF) = false := by
+  decide
+
 /-! ### C01: the indented-syntax loud comment, as found and as it is now -/
 
 /-- As found, once the cursor is at the end of the buffer the loop never leaves: whatever the
